@@ -598,3 +598,440 @@ func genConcFetch(o *Out, tier string, r *Rng) {
 	emitFetch(o, "fetch", "a:L:-", "p")
 	emitFetch(o, "fetch", ":G:G", "p")
 }
+
+// ---------------------------------------------------------------------------------------------
+// Two concurrent FetchKeys calls on ONE DirectKeyFetcher, each with its own context (op conc.fetch2).
+//
+// op line:  conc.fetch2  <cfg>  <plan>  <impl outcome>
+//   cfg     as for conc.fetch, at most 4 servers; both callers request every listed (server, key ID)
+//   plan    A / B      start caller A / B (its FetchKeys goroutine) and wait until each of its workers sits in its first
+//                      client call
+//           p q r s    release caller A's pending client call for server 0..3      (no-op if it has none)
+//           P Q R S    release caller B's
+//           x / y      cancel caller A's / B's context: its pending client calls return the context's error, and so does
+//                      every later call it makes
+//           afterwards every pending call of a started caller is released, in index order, A first
+//   outcome <trace>#<A's result map>#<B's result map>   (`-` for a caller that was never started)
+//           trace: A<n> / B<n> (n client calls became pending), `>` `.` `-` as for conc.fetch, x. / y. (the caller returned
+//           after the cancellation), x- / y- (it had returned before, or was not started)
+//
+// The scripted client tells the callers apart by a value in the context FetchKeys hands through to it.  On the tree as
+// it is the two calls share nothing but the client, every barrier is an event (no timeout is ever hit), and at most one
+// goroutine of the scenario is runnable at any time except while a cancelled caller winds down.
+
+type fetch2Ev struct {
+	g    int
+	srv  string
+	kind byte
+}
+
+type fetch2Client struct {
+	srvs    []fetchSrv
+	events  chan fetch2Ev
+	release [2]map[string]chan struct{}
+}
+
+func (c *fetch2Client) idx(s spec.ServerName) int {
+	i, err := strconv.Atoi(strings.TrimPrefix(string(s), "s"))
+	if err != nil || i < 0 || i >= len(c.srvs) {
+		return -1
+	}
+	return i
+}
+
+// block signals the call and waits for its release or for the end of the caller's context
+func (c *fetch2Client) block(ctx context.Context, s spec.ServerName, kind byte) error {
+	g, _ := ctx.Value(gidKey{}).(int)
+	if g < 0 || g > 1 {
+		return errScripted
+	}
+	if err := ctx.Err(); err != nil {
+		return err
+	}
+	ch, ok := c.release[g][string(s)]
+	if !ok {
+		return errScripted
+	}
+	c.events <- fetch2Ev{g, string(s), kind}
+	select {
+	case <-ch:
+		return nil
+	case <-ctx.Done():
+		return ctx.Err()
+	}
+}
+
+func (c *fetch2Client) GetServerKeys(ctx context.Context, s spec.ServerName) (gmsl.ServerKeys, error) {
+	if err := c.block(ctx, s, 'D'); err != nil {
+		return gmsl.ServerKeys{}, err
+	}
+	return concDirect(c.idx(s), c.srvs[c.idx(s)].direct)
+}
+
+func (c *fetch2Client) LookupServerKeys(ctx context.Context, s spec.ServerName, _ map[gmsl.PublicKeyLookupRequest]spec.Timestamp) ([]gmsl.ServerKeys, error) {
+	if err := c.block(ctx, s, 'N'); err != nil {
+		return nil, err
+	}
+	return concNotary(c.idx(s), c.srvs[c.idx(s)].notary)
+}
+
+func runFetch2(cfg, plan string) string {
+	srvs, ok := parseFetchCfg(cfg)
+	if !ok || len(srvs) > 4 {
+		return "bad-op"
+	}
+	cl := &fetch2Client{srvs: srvs, events: make(chan fetch2Ev, 8*len(srvs)+8)}
+	reqs := map[gmsl.PublicKeyLookupRequest]spec.Timestamp{}
+	remote := 0
+	for g := 0; g < 2; g++ {
+		cl.release[g] = map[string]chan struct{}{}
+	}
+	for i, s := range srvs {
+		name := "s" + strconv.Itoa(i)
+		for g := 0; g < 2; g++ {
+			cl.release[g][name] = make(chan struct{}, 1)
+		}
+		for _, k := range s.kids {
+			reqs[gmsl.PublicKeyLookupRequest{ServerName: spec.ServerName(name), KeyID: gmsl.KeyID(k)}] = spec.Timestamp(1)
+		}
+		if s.direct != "L" && len(s.kids) > 0 {
+			remote++
+		}
+	}
+	d := &gmsl.DirectKeyFetcher{
+		Client: cl,
+		IsLocalServerName: func(s spec.ServerName) bool {
+			i := cl.idx(s)
+			return i >= 0 && srvs[i].direct == "L"
+		},
+		LocalPublicKey: spec.Base64Bytes(concLocalKey.pub),
+	}
+	type fres struct {
+		m   map[gmsl.PublicKeyLookupRequest]gmsl.PublicKeyLookupResult
+		err error
+	}
+	var (
+		started, cancelled [2]bool
+		cancel             [2]context.CancelFunc
+		ctxs               [2]context.Context
+		done               [2]chan fres
+		final              [2]*fres
+		jobsLeft           [2]int
+		pending            = [2]map[string]byte{{}, {}}
+		base               = 0 // workers of earlier scenarios still winding down (normally 0)
+		alive              = 0 // workers of this scenario expected to be alive
+	)
+	for t0 := time.Now(); ; runtime.Gosched() {
+		if base = fetchWorkersAlive(); base == 0 || time.Since(t0) > time.Second {
+			break
+		}
+	}
+	for g := 0; g < 2; g++ {
+		ctxs[g], cancel[g] = context.WithCancel(context.WithValue(context.Background(), gidKey{}, g))
+		done[g] = make(chan fres, 1)
+	}
+	defer func() {
+		// nothing of this scenario outlives it: end both contexts (every blocked call returns)
+		cancel[0]()
+		cancel[1]()
+	}()
+	note := func(ev fetch2Ev) { pending[ev.g][ev.srv] = ev.kind }
+	// waitOne waits for one consequence of a move: a client call, a worker exit, or the return of a caller
+	waitOne := func(countExits bool) (fetch2Ev, string) {
+		deadline := time.Now().Add(concStepTimeout)
+		for {
+			select {
+			case ev := <-cl.events:
+				return ev, "event"
+			case r := <-done[0]:
+				final[0] = &r
+				return fetch2Ev{g: 0}, "returned"
+			case r := <-done[1]:
+				final[1] = &r
+				return fetch2Ev{g: 1}, "returned"
+			default:
+			}
+			if countExits && fetchWorkersAlive()-base < alive {
+				return fetch2Ev{}, "exited"
+			}
+			if time.Now().After(deadline) {
+				return fetch2Ev{}, "hang"
+			}
+			runtime.Gosched()
+		}
+	}
+	// awaitReturn waits for caller g's FetchKeys to return and for its workers to be gone
+	awaitReturn := func(g int, workers int) bool {
+		if final[g] == nil {
+			select {
+			case r := <-done[g]:
+				final[g] = &r
+			case <-time.After(concStepTimeout):
+				return false
+			}
+		}
+		alive -= workers
+		deadline := time.Now().Add(concStepTimeout)
+		for fetchWorkersAlive()-base > alive {
+			if time.Now().After(deadline) {
+				return false
+			}
+			runtime.Gosched()
+		}
+		return true
+	}
+	var trace strings.Builder
+	hung := false
+	startCaller := func(g int) {
+		if started[g] {
+			trace.WriteString("-")
+			return
+		}
+		started[g] = true
+		go func() {
+			m, err := d.FetchKeys(ctxs[g], reqs)
+			done[g] <- fres{m, err}
+		}()
+		want := remote
+		if cancelled[g] {
+			want = 0
+		}
+		got := 0
+		for got < want {
+			ev, what := waitOne(false)
+			if what == "event" {
+				note(ev)
+				if ev.g == g {
+					got++
+				}
+				continue
+			}
+			if what == "returned" {
+				continue
+			}
+			break // timeout: fewer client calls than workers (reported in the trace; the plan goes on)
+		}
+		jobsLeft[g] = got
+		alive += got
+		trace.WriteString(string(rune('A'+g)) + strconv.Itoa(got))
+		if got < want {
+			concHangs["fetch2"]++
+		}
+		if want == 0 && !awaitReturn(g, 0) {
+			// no remote server (or a context that had ended before): FetchKeys returns without any client call
+			trace.WriteString("H")
+			hung = true
+		}
+	}
+	releaseCall := func(g int, name string, record bool) {
+		if _, ok := pending[g][name]; !ok || cancelled[g] {
+			if record {
+				trace.WriteString("-")
+			}
+			return
+		}
+		delete(pending[g], name)
+		cl.release[g][name] <- struct{}{}
+		ev, what := waitOne(true)
+		obs := "."
+		switch what {
+		case "event":
+			note(ev)
+			if ev.g == g && ev.srv == name && ev.kind == 'N' {
+				obs = ">"
+			}
+		case "hang":
+			obs = "H"
+			hung = true
+		}
+		if obs == "." {
+			jobsLeft[g]--
+			if what == "exited" || what == "returned" {
+				alive--
+			}
+			if jobsLeft[g] <= 0 && !awaitReturn(g, 0) {
+				obs = "H"
+				hung = true
+			}
+		}
+		if record {
+			trace.WriteString(obs)
+		}
+	}
+	cancelCaller := func(g int) {
+		trace.WriteString(string(rune('x' + g)))
+		running := started[g] && final[g] == nil
+		cancelled[g] = true
+		cancel[g]()
+		pending[g] = map[string]byte{}
+		if !running {
+			trace.WriteString("-")
+			return
+		}
+		w := jobsLeft[g]
+		jobsLeft[g] = 0
+		if !awaitReturn(g, w) {
+			trace.WriteString("H")
+			hung = true
+			return
+		}
+		trace.WriteString(".")
+	}
+	for _, ch := range plan {
+		if hung {
+			break
+		}
+		switch {
+		case ch == 'A' || ch == 'B':
+			startCaller(int(ch - 'A'))
+		case ch == 'x' || ch == 'y':
+			cancelCaller(int(ch - 'x'))
+		case ch >= 'p' && ch <= 's':
+			releaseCall(0, "s"+strconv.Itoa(int(ch-'p')), true)
+		case ch >= 'P' && ch <= 'S':
+			releaseCall(1, "s"+strconv.Itoa(int(ch-'P')), true)
+		default:
+			return "bad-op"
+		}
+	}
+	// the rest: every pending call, in index order, caller A first
+	for round := 0; !hung && round < 4*len(srvs)+4; round++ {
+		any := false
+		for g := 0; g < 2 && !hung; g++ {
+			for i := range srvs {
+				name := "s" + strconv.Itoa(i)
+				if _, ok := pending[g][name]; ok && !hung {
+					any = true
+					releaseCall(g, name, false)
+				}
+			}
+		}
+		if !any {
+			break
+		}
+	}
+	if hung {
+		return trace.String() + "#hang"
+	}
+	out := trace.String()
+	for g := 0; g < 2; g++ {
+		switch {
+		case !started[g]:
+			out += "#-"
+		default:
+			if final[g] == nil {
+				select {
+				case r := <-done[g]:
+					final[g] = &r
+				case <-time.After(concStepTimeout):
+					return trace.String() + "#hang:return"
+				}
+			}
+			if final[g].err != nil {
+				out += "#err"
+			} else {
+				out += "#" + showFetchResults(final[g].m)
+			}
+		}
+	}
+	return out
+}
+
+func emitFetch2(o *Out, cfg, plan string) {
+	if concHangs["fetch2"] >= concMaxHangs {
+		o.Count("fetch2.skipped-after-hangs")
+		return
+	}
+	args := []string{cfg, plan}
+	impl := Guard(func() string { return execConc("fetch2", args) })
+	o.Emit("fetch2", append(args, impl), impl)
+	switch {
+	case strings.ContainsAny(plan, "xy") && strings.Index(plan, "A") < strings.IndexAny(plan, "xy") && strings.Index(plan, "B") < strings.IndexAny(plan, "xy"):
+		o.Count("fetch2.cancel-while-both-in-flight")
+	case strings.ContainsAny(plan, "xy"):
+		o.Count("fetch2.cancel-other")
+	default:
+		o.Count("fetch2.no-cancel")
+	}
+	if strings.Contains(impl, "hang") {
+		concHangs["fetch2"]++
+	}
+}
+
+func genConcFetch2(o *Out, tier string, r *Rng) {
+	// the smallest scenarios, always: one server that answers; both callers in flight; one context ends before the answer
+	for _, cfg := range []string{"a:G:E", "a:G:G", "a:E:G", "a,z:M:E;a:G:E"} {
+		for _, plan := range []string{"ABx", "ABy", "BAx", "AxB", "ABpx", "ABPx", "AB", "ApB", "ABxP", "AByp"} {
+			emitFetch2(o, cfg, plan)
+		}
+	}
+	n := 120
+	if tier == "thorough" {
+		n = 2500
+	}
+	for i := 0; i < n; i++ {
+		k := 1 + r.Intn(3)
+		var ss []string
+		for j := 0; j < k; j++ {
+			ss = append(ss, randFetchSrv(r))
+		}
+		cfg := strings.Join(ss, ";")
+		// a random interleaving of: A's start + its releases (two per server), B's likewise; then a cancellation of
+		// one caller (70%) inserted somewhere after the first start
+		var as, bs []byte
+		as = append(as, 'A')
+		bs = append(bs, 'B')
+		var ar, br []byte
+		for j := 0; j < k; j++ {
+			ar = append(ar, byte('p'+j), byte('p'+j))
+			br = append(br, byte('P'+j), byte('P'+j))
+		}
+		shuffle := func(b []byte) {
+			for i := len(b) - 1; i > 0; i-- {
+				j := r.Intn(i + 1)
+				b[i], b[j] = b[j], b[i]
+			}
+		}
+		shuffle(ar)
+		shuffle(br)
+		as = append(as, ar[:r.Intn(len(ar)+1)]...)
+		bs = append(bs, br[:r.Intn(len(br)+1)]...)
+		var plan []byte
+		ia, ib := 0, 0
+		for ia < len(as) || ib < len(bs) {
+			// starts come early most of the time, so that the callers overlap
+			pickA := ib >= len(bs) || (ia < len(as) && (r.Bool() || (ia == 0 && r.Chance(60))))
+			if ib == 0 && ia > 0 && ib < len(bs) && r.Chance(60) {
+				pickA = false
+			}
+			if pickA {
+				plan = append(plan, as[ia])
+				ia++
+			} else {
+				plan = append(plan, bs[ib])
+				ib++
+			}
+		}
+		if r.Chance(70) {
+			c := byte('x')
+			if r.Bool() {
+				c = 'y'
+			}
+			at := 1 + r.Intn(len(plan))
+			if r.Chance(50) {
+				// right after both starts
+				at = 0
+				for seen := 0; at < len(plan) && seen < 2; at++ {
+					if plan[at] == 'A' || plan[at] == 'B' {
+						seen++
+					}
+				}
+			}
+			plan = append(plan[:at], append([]byte{c}, plan[at:]...)...)
+		}
+		emitFetch2(o, cfg, string(plan))
+		if i < 3 {
+			o.Sample("conc.fetch2 " + cfg + " plan=" + string(plan))
+		}
+	}
+}
